@@ -1,87 +1,102 @@
-"""Doc-replay (DESIGN 2.9) restricted to plain `mlr ...` commands: every GENMD block
-`<pre class="pre-highlight-in-pair"><b>mlr ...</b></pre>` + `pre-non-highlight-in-pair`
-in /repo/docs/src/*.md is a recorded upstream execution (command, expected stdout).
-
-Only commands that are a single mlr invocation without shell syntax are replayed (argv via
-shlex, no shell); the data files a command names are copied into the scratch cwd, so /repo is
-only ever read.  Used by C12/C13 as a supplementary oracle for the verbs they own."""
+"""Doc-replay (DESIGN 2.9), restricted form: every GENMD block of a documentation page whose
+command is ONE plain `mlr ...` invocation (no pipe, redirect, shell variable or multi-command
+line) is replayed against the binary with cwd = /repo/docs/src (read only) and compared with
+the recorded output. Blocks that need a shell, write files or are environment-bound are
+declined (counted), never guessed."""
 import html
 import os
 import re
 import shlex
 
 DOCS = "/repo/docs/src"
-
-_BLOCK = re.compile(
-    r'<pre class="pre-highlight-in-pair">\n(.*?)</pre>\n<pre class="pre-non-highlight-in-pair">\n(.*?)</pre>',
-    re.S)
-
-_SHELL_TOKENS = {"|", ">", ">>", "<", ";", "&&", "||", "&", "2>&1"}
+_BLOCK = re.compile(r'<pre class="pre-highlight-in-pair">\n(.*?)</pre>\n<pre class="pre-non-highlight-in-pair">\n(.*?)</pre>', re.S)
+_SKIP_WORDS = ("tee", "split", "-I", "system", "exec", "hostname", "os.", "version", "--version", "urand", "shuffle", "bootstrap", "sample",
+               "systime", "uptime", "--prepipe", "--gzin", "--bz2in", "--zin", "--zstdin", "repl", "help", "regtest", "lecat", "termcvt",
+               "seqgen -f", "--nr-progress-mod", "nothing", "--ofmt", "--load", "--mload", "strfntime_local", "--tz", "ENV", "--c2p --barred-input")
 
 
-def blocks(md_name):
-    """-> list of (command text, expected stdout text, nearest preceding '## ' heading)."""
-    path = os.path.join(DOCS, md_name)
-    try:
-        with open(path, encoding="utf-8") as f:
-            text = f.read()
-    except OSError:
+def blocks(page):
+    path = os.path.join(DOCS, page)
+    if not os.path.exists(path):
         return []
-    heads = [(m.start(), m.group(1).strip()) for m in re.finditer(r'^## (.*)$', text, re.M)]
+    text = open(path, encoding="utf-8").read()
     out = []
     for m in _BLOCK.finditer(text):
-        cmd_lines = []
-        for line in m.group(1).split("\n"):
-            if line.startswith("<b>") and line.endswith("</b>"):
-                cmd_lines.append(html.unescape(line[3:-4]))
-        cmd = "\n".join(cmd_lines)
-        exp = html.unescape(m.group(2))
-        h = ""
-        for pos, name in heads:
-            if pos < m.start():
-                h = name
-            else:
-                break
-        out.append((cmd, exp, h))
+        cmd_lines = [html.unescape(re.sub(r"</?b>", "", l)) for l in m.group(1).rstrip("\n").split("\n")]
+        out.append(("\n".join(cmd_lines), html.unescape(m.group(2))))
     return out
 
 
-def plain_argv(cmd):
+def plain_mlr_argv(cmd):
     """argv (without 'mlr') if cmd is one plain mlr invocation, else None."""
-    if "\n" in cmd and not all(l.rstrip().endswith("\\") for l in cmd.split("\n")[:-1]):
-        return None     # several commands in one block
-    flat = cmd.replace("\\\n", " ")
-    if "<(" in flat or "$(" in flat or "`" in flat:
+    cmd = cmd.replace("\\\n", " ")
+    if not cmd.startswith("mlr "):
         return None
     try:
-        toks = shlex.split(flat, posix=True)
-    except ValueError:
-        return None
-    if not toks or toks[0] != "mlr":
-        return None
-    # shell operators appear as separate tokens only outside quotes; find them on the raw text
-    try:
-        lex = shlex.shlex(flat, posix=True, punctuation_chars=True)
+        lex = shlex.shlex(cmd, posix=True, punctuation_chars=True)
         lex.whitespace_split = True
-        for t in lex:
-            if t in _SHELL_TOKENS or (t and set(t) <= set("|&;<>")):
-                return None
+        toks = list(lex)
     except ValueError:
         return None
-    return toks[1:]
+    if any(t in ("|", ">", ">>", "<", ";", "&&", "||", "&", "2>&1", "(", ")") or set(t) <= set("|&;<>()") for t in toks):
+        return None
+    if "$" in cmd and re.search(r"\$[A-Z({]", cmd.replace("'", " ")) and "'" not in cmd:
+        return None
+    argv = toks[1:]
+    joined = " " + " ".join(argv) + " "
+    for w in _SKIP_WORDS:
+        if (" " + w + " ") in joined or (w.endswith(".") and w in joined) or (w in ("urand", "system", "exec", "systime", "ENV", "os.", "hostname", "version") and w in joined):
+            return None
+    if re.search(r"(tee|emit|print|dump|printn|emitp)\s*>", cmd) or "redirect" in cmd:
+        return None
+    return argv
 
 
-def needed_files(argv):
-    """Relative paths named in argv that exist under the docs tree -> {name: bytes}."""
-    files = {}
-    for t in argv:
-        if t.startswith("-") or "/" == t[:1] or ".." in t:
-            continue
-        p = os.path.join(DOCS, t)
-        if os.path.isfile(p):
+def _num_tolerant_equal(a, b):
+    if a == b:
+        return True
+    ta = re.split(r"(-?\d+\.\d+(?:[eE][-+]?\d+)?)", a)
+    tb = re.split(r"(-?\d+\.\d+(?:[eE][-+]?\d+)?)", b)
+    if len(ta) != len(tb):
+        return False
+    for i, (x, y) in enumerate(zip(ta, tb)):
+        if i % 2 == 0:
+            if x != y:
+                return False
+        elif x != y:
             try:
-                with open(p, "rb") as f:
-                    files[t] = f.read()
-            except OSError:
-                pass
-    return files
+                fx, fy = float(x), float(y)
+            except ValueError:
+                return False
+            if abs(fx - fy) > 1e-12 * max(1.0, abs(fx), abs(fy)):
+                return False
+    return True
+
+
+def replay_page(case):
+    """Worker: case = {"page":..., "prop":...}. Uses the harness result protocol."""
+    from .. import run as R
+    from ..harness import add_violation, bump, case_result
+    page = case["page"]
+    res = case_result("docreplay:" + page, True, evals=0)
+    keys = []
+    for cmd, expected in blocks(page):
+        argv = plain_mlr_argv(cmd)
+        if argv is None:
+            bump(res, "docreplay_declined")
+            continue
+        r = R.mlr(argv, cwd=DOCS, stdin=b"")
+        res["evals"] += 1
+        if r.verdict == "slow":
+            res["inconc"] += 1
+            continue
+        out, err = r.stdout.decode("utf-8", "replace"), r.stderr.decode("utf-8", "replace")
+        if any(_num_tolerant_equal(expected, cand) for cand in (out, out + err, err + out, err)):
+            bump(res, "docreplay_reproduced")
+            keys.append("docreplay:" + page + ":" + cmd)
+        else:
+            add_violation(res, {"kind": "docreplay", "page": page, "cmd": cmd[:120]},
+                          f"{page}: the documentation records a different output for `{cmd[:200]}`",
+                          {"argv": argv, "cwd": DOCS, "expected": expected[:3000], "got_stdout": out[:3000], "got_stderr": err[:1000]})
+    res["nontrivial_keys"] = keys
+    return res
